@@ -28,6 +28,12 @@ def wrapS (m : Int) (x : Int) : Int :=
   let r := x % m
   if r < m / 2 then r else r - m
 
+/-- bitwise operator on signed values of a type with 2^n = `m` bit patterns (two's complement): applied to the
+    bit patterns, the result read back as a signed value -/
+def sbits (m : Nat) (op : Nat → Nat → Nat) (a b : Int) : Int :=
+  let r : Int := ((op (a % (m : Int)).toNat (b % (m : Int)).toNat % m : Nat) : Int)
+  if r < (m : Int) / 2 then r else r - (m : Int)
+
 /-- `d[i]` -/
 def getAt (d : Bytes) (i : Int) : Res Nat :=
   if i < 0 then .panic
